@@ -182,6 +182,14 @@ def run(chk, replay=None):
     if len(cases) < 1000:
         raise MachineryError('Gen produced %d histories' % len(cases))
     chk.log('Gen: %d histories' % len(cases))
+    # long histories from TLC's simulator (random walks of 8 operations through Persist.tla)
+    res = chk.tlc('GenPersist', 'Sim_Persist.cfg', workers=1, coverage=False, count_states=False, timeout=1200,
+                  simulate='num=%d' % (150 if quick else 4000), depth=9, expect='any')
+    sim_cases = res.tagged.get('CASE', [])
+    if len(sim_cases) < 100:
+        raise MachineryError('simulator produced %d histories' % len(sim_cases))
+    cases = list(cases) + sim_cases
+    chk.notes['simulated_histories'] = len(sim_cases)
     if quick:
         # the quick tier bounds TLC's histories at 3 operations; chains of two different round trips (4 operations) are
         # added for every source catalog of the model (the trace specification judges them like any other history)
